@@ -104,6 +104,10 @@ def handle : List String → String
     match e.toInt?, n.toInt? with
     | some e, some n => if signOk e n then "ok" else "expired"
     | _, _ => "bad-op"
+  | ["signcms", e, n] =>
+    match e.toInt?, n.toInt? with
+    | some e, some n => if signOk e n then "ok" else "expired"
+    | _, _ => "bad-op"
   | "last" :: nb :: na :: ws =>
     match nb.toInt?, na.toInt?, takeCounted parseVal ws with
     | some nb, some na, some (l, []) =>
